@@ -105,11 +105,12 @@ class C06(Prop):
             "exact formats. distinct = distinct (type, payload) pairs.")
     technique = "Lean 4 proof (structural stability/exactness theorems per codec shape; kernel sweeps for the 8-bit scaled types) over a shape table regenerated from the source + exhaustive differential correspondence with an integer-only IEEE-754 model"
     level_text = ("Theorems (all payloads, no sampling): re-encoding a decoded value yields a payload decoding to the same value, "
-                  "and byte-identical up to ignored bits, for the bool, integer, IEEE-754, RGB, scene, time and variable-string "
-                  "shapes (146 of 174 registered types, counted by a theorem over the regenerated shape table) and for 5.001 / 5.003 "
-                  "(all 256 octets through the float model in the kernel). _partial: the 20 sixteen-bit float types, 8.003/8.004/8.010, "
-                  "date, the 14-character strings and two colour structures are decided by the exhaustive differential run + oracle.")
-    partial = "Lean stability theorems for the 9.xxx / 8.00x / date / 16.xxx / colour shapes are not finished; those shapes rest on the exhaustive differential run"
+                  "and byte-identical up to ignored bits, for the bool, integer, IEEE-754, RGB, scene, time, date (two-digit year "
+                  "window, all-zero payload, calendar check), 14-character string (ASCII / ISO 8859-1), variable-string, xyY and "
+                  "RGBW shapes (151 of 174 registered types, counted by a theorem over the regenerated shape table) and for 5.001 / "
+                  "5.003 (all 256 octets through the float model in the kernel). _partial: the 20 sixteen-bit float types and "
+                  "8.003/8.004/8.010 are decided by the exhaustive differential run + oracle.")
+    partial = "Lean stability theorems for the 16-bit float shapes (20 types 9.xxx) and 8.003 / 8.004 / 8.010 are not finished; those 23 of 174 types rest on the exhaustive differential run (all 65 536 encodings each)"
 
 
 class C07(Prop):
@@ -438,7 +439,8 @@ class C10(Proto):
                   "error at once and Inbound reads closed; no model process survives termination.")
     partial = ("data-race freedom and goroutine exit are Go-runtime facts: checked by synctest's leak detection on every script "
                "(and the race detector), not proved; concurrent closers block on sync.Once and are not driven under virtual "
-               "time: they run in real time (streams C10rt, C10live) and are observed, not proved")
+               "time: their interleavings are proved on the Once-level model (Props.C10.Closers: any number of closers, any "
+               "schedule) and the real code runs them in real time (streams C10rt - compared with that model - and C10live)")
 
 
 class C17(Proto):
@@ -719,15 +721,35 @@ def run(prop, tier, seed):
             # + the correspondence of the drivers built from them with the code as it is now.
             strict_log = proof_log
             changed = runner.changed_declarations()
-            if runner.restore_baseline():
+
+            def rebuild():
                 ok2, log2 = runner.lake_build(modules)
                 g2 = True
                 if uses_gen and ok2:
                     g2, _ = runner.lake_build(["gendrv"])
-                if ok2 and g2:
-                    strict_broken = dict(theorems=(runner.broken_theorems(strict_log)[:8] or ["lake build " + P.lean_module]),
-                                         log=strict_log[-2500:], changed_declarations=changed[:40])
-                    proof_ok, gen_ok, proof_log = True, True, log2
+                return ok2 and g2, log2
+
+            # stage 1: only the source fingerprints are replaced by the recorded ones - every other
+            # regenerated fact (tables, constants, translated helpers, shapes) stays as the code has it now,
+            # so the semantic theorems are still checked against the current tree
+            if proof_ok is False or gen_ok is False:
+                if runner.restore_baseline(only=["Source.lean"]):
+                    ok1, log1 = rebuild()
+                    if ok1:
+                        strict_broken = dict(theorems=(runner.broken_theorems(strict_log)[:8] or ["lake build " + P.lean_module]),
+                                             log=strict_log[-2500:], changed_declarations=changed[:40], semantic=False)
+                        proof_ok, gen_ok, proof_log = True, True, log1
+                    else:
+                        # stage 2: all recorded facts.  What broke in stage 1 is a theorem over a regenerated
+                        # fact (or the translation itself)
+                        strict_log = log1
+                        if runner.restore_baseline():
+                            ok2, log2 = rebuild()
+                            if ok2:
+                                items = runner.broken_theorems(strict_log)[:8] or ["lake build " + P.lean_module]
+                                strict_broken = dict(theorems=items, log=strict_log[-2500:], changed_declarations=changed[:40],
+                                                     semantic=not runner.only_followability(items))
+                                proof_ok, gen_ok, proof_log = True, True, log2
         thms, audit_ok, audit_log = [], False, ""
         if proof_ok:
             audit_ok, thms, audit_log = runner.audit(P.lean_module)
@@ -840,6 +862,18 @@ def run(prop, tier, seed):
             broken=what, correspondence_disagreements=all_dis[:10],
             how=("a proof obligation of %s no longer checks and/or the model and the implementation disagree on the listed "
                  "operations; the oracle found no input on which the property itself fails" % P.lean_module),
+            replay_cmd="cd %s && VERIF_SEED=%d ./check %s %s" % (ROOT, seed, prop, tier)))
+        lines.append("VIOLATION property=%s replay=%s no-failing-input-found" % (prop, path))
+        verdict = 1
+    elif strict_broken and strict_broken.get("semantic"):
+        # a theorem over a fact regenerated from the source as it is now is FALSE of that source (the translator
+        # followed, the statement does not hold): the property is no longer shown to hold
+        path = runner.write_replay(prop, dict(
+            property=prop, kind="no-failing-input-found",
+            broken=[dict(theorems_or_build=strict_broken["theorems"], log=strict_broken["log"])],
+            edited_declarations=strict_broken.get("changed_declarations", []),
+            how=("theorems of %s over the facts regenerated from the current source no longer check; with the recorded facts "
+                 "they do, and the escalated search found no input on which the property fails" % P.lean_module),
             replay_cmd="cd %s && VERIF_SEED=%d ./check %s %s" % (ROOT, seed, prop, tier)))
         lines.append("VIOLATION property=%s replay=%s no-failing-input-found" % (prop, path))
         verdict = 1
